@@ -205,6 +205,22 @@ def run_case(ck, desc):
         return n >= 10, {"rows": len(table), "Tpc": Tpc, "ppc": ppc, "nonideal": n}
 
     Tr, Tpc, ppc = desc["Tr"], desc["Tpc"], desc["ppc"]
+    if int(Tr * 1e6) % 7 == 0:
+        # the Fahrenheit scale has its zero INSIDE the range of pseudocritical temperatures (heavy or
+        # CO2-rich gases): exactly 0 F, as float, int and numpy scalar, directly and through the facade
+        from bluebonnet.fluids import Fluid
+
+        for tpc0 in (0.0, 0, np.float64(0.0)):
+            T0 = Tr * 459.67 - 459.67
+            for pr_ in desc["pr"][:6]:
+                from bluebonnet.fluids.gas import b_factor_DAK
+
+                z_direct = float(z_factor_DAK(T0, pr_ * ppc, tpc0, ppc))
+                bg = float(np.asarray(Fluid(T0, 35.0, 0.65, 500.0).gas_FVF(np.array([pr_ * ppc]), tpc0, ppc))[0])
+                z_facade = z_direct * bg / float(b_factor_DAK(T0, pr_ * ppc, 0.0, ppc))  # (Bg is Z times a factor that does not involve T_pc)
+                if not ck.margin("Z behind the facade's Bg at T_pc = 0 F equals the direct call", abs(z_facade / z_direct - 1), 1e-12):
+                    ck.violation("facade-uses-the-pseudocritical-point-given", {"T_pc": repr(tpc0), "Tr": Tr, "pr": pr_, "Z_direct": z_direct, "Z_behind_Bg": z_facade}, desc)
+        ck.count("isotherms_at_pseudocritical_temperature_zero_F")
     T = Tr * (Tpc + 459.67) - 459.67
     zs = {}
     for pr in desc["pr"]:
